@@ -24,7 +24,7 @@ ASSUMPTIONS = ["the scripted coupling process stands for any coupling process (t
                "kurtosis is compared on profiles whose per-level sample variance is >= 1 (below, the statement does not fix the formula)",
                "sample budget 2e6 per run: beyond it the run is inconclusive, not a violation"]
 REQUIRED_COUNTERS = ["runs_adaptive", "runs_fixed_level", "rows_checked", "levels_added_late", "multi_pass_runs", "add_events",
-                     "vector_payoff_runs", "control_variate_runs", "control_rows_checked", "adjusted_series_checks", "price_checks"]
+                     "vector_payoff_runs", "control_variate_runs", "control_rows_checked", "adjusted_series_checks", "price_checks", "multi_process_runs"]
 MIN_NONTRIVIAL = {"quick": 40, "thorough": 500}
 SHARD_TIMEOUT = {"quick": 900, "thorough": 7200}
 
@@ -41,6 +41,10 @@ def gen_cases(tier, seed):
                       "rates_given": bool(i % 3 != 0), "scale": float(rng.choice([1.0, 30.0])),
                       "dim": int([1, 1, 2, 1, 3, 1, 1][i % 7]), "ncv": int([0, 1, 0, 2, 0, 0, 1, 0][i % 8]),
                       "cv_prices": ["scalar", "vector"][(i // 8) % 2]})
+        if i % 16 == 5:
+            # samples simulated by a pool of two worker processes (scalar payoff, no control): small runs, the pools are slow to start
+            cases[-1].update({"workers": 2, "dim": 1, "ncv": 0, "budget": 3000, "rmse_exp": float(rng.uniform(-0.9, -0.3)), "N0": int(rng.choice([5, 20])),
+                              "Lmax_extra": int(rng.integers(0, 3)), "variant": "adaptive"})
     return cases
 
 
@@ -101,6 +105,7 @@ class Tap:
 
     def __init__(self):
         self.adds = []       # (id(stat), row)
+        self.values = []     # (id(stat), value written)
         self.problems = []
 
     def __enter__(self):
@@ -115,6 +120,7 @@ class Tap:
             if not (0 <= simulation < n):
                 tap.problems.append(("add-outside-allocated-rows", f"add(row {simulation}) on an array of {n} rows"))
             tap.adds.append((id(stat), int(simulation)))
+            tap.values.append((id(stat), np.array(variable, dtype=float, copy=True)))
             return tap.orig_add(stat, simulation, variable)
 
         ST.Statistic.add = add
@@ -171,7 +177,10 @@ def run_case(case, R):
         def ctrl(s):
             s = np.asarray(s, dtype=float)
             return np.stack([np.maximum((s - k) if t == PayoffType.CALL else (k - s), 0.0) for t, k, _ in cv_specs], axis=1)      # (n, ncv)
-    conf = ConfigurationMultiLevel(convergence_rates=rates, initial_level=L0, maximum_level=Lmax, initial_mc_paths=N0, seed=7, nb_of_processes=1, **conf_kw)
+    workers = int(case.get("workers", 1))
+    if workers > 1:
+        R.hit("multi_process_runs")
+    conf = ConfigurationMultiLevel(convergence_rates=rates, initial_level=L0, maximum_level=Lmax, initial_mc_paths=N0, seed=7, nb_of_processes=workers, **conf_kw)
     wit = {"case": case, "rmse": rmse}
     eng = Engine(conf, cp)
     kindtag = f"dim{'1' if dim == 1 else 'N'}-cv{'0' if ncv == 0 else 'N'}"
@@ -196,7 +205,18 @@ def run_case(case, R):
     by_level = {}
     passes = []           # sizes of the consecutive blocks of samples per level, in order
     last = None
-    for e in cp.log.events:
+    events = cp.log.events
+    if workers > 1:
+        # the samples are simulated in worker processes (their log stays there): the reference model is fed by the values handed to the
+        # payoff statistics in the parent process (scalar Forward payoff: the terminal values are recovered from the discounted payoff)
+        level_of = {id(st.mc_statistics[l]._payoff_statistics): l for l in range(len(st.mc_statistics))}
+        events = []
+        for sid, val in tap.values:
+            if sid in level_of:
+                v = np.asarray(val, dtype=float).reshape(-1)
+                l = level_of[sid]
+                events.append(("sample", l, len(events), v[0] / (2.0 * df) + 10.0, (v[1] / (2.0 * df) + 10.0) if l > 0 else 12345.678))
+    for e in events:
         if e[0] == "sample":
             _, l, k, fine, coarse = e
             by_level.setdefault(l, []).append((k, fine, coarse))
